@@ -26,18 +26,20 @@ Inductive jp :=
 | JAttrMatches        (* completer.attr_matches *)
 | JExecfile           (* ip.safe_execfile *)
 | JDebugger           (* ip.InteractiveTB.debugger *)
-| JRunWithDebugger.   (* execmgr._run_with_debugger *)
+| JRunWithDebugger    (* execmgr._run_with_debugger *)
+| JInitShell          (* app.init_shell                     (enable before the shell exists) *)
+| JInitSubcommand.    (* app.initialize_subcommand *)
 
 Definition jp_index (j : jp) : N :=
   match j with
   | JSplitterReset => 0 | JOfind => 1 | JRunAstNodes => 2 | JCompile => 3 | JTime => 4 | JTimeit => 5
   | JProfiler => 6 | JPrun => 7 | JMatchersProp => 8 | JGlobalMatches => 9 | JAttrMatches => 10
-  | JExecfile => 11 | JDebugger => 12 | JRunWithDebugger => 13
+  | JExecfile => 11 | JDebugger => 12 | JRunWithDebugger => 13 | JInitShell => 14 | JInitSubcommand => 15
   end%N.
 Definition jp_eqb (a b : jp) : bool := (jp_index a =? jp_index b)%N.
 Definition all_jps : list jp :=
   [JSplitterReset; JOfind; JRunAstNodes; JCompile; JTime; JTimeit; JProfiler; JPrun; JMatchersProp;
-   JGlobalMatches; JAttrMatches; JExecfile; JDebugger; JRunWithDebugger].
+   JGlobalMatches; JAttrMatches; JExecfile; JDebugger; JRunWithDebugger; JInitShell; JInitSubcommand].
 
 (* what `container.get(name, _UNSET)` yields: nothing (an instance __dict__ without the entry: the
    class attribute shows through), a value without `__aspect__` (identity id), or an advice wrapper
@@ -86,39 +88,48 @@ Record state := mkState {
   user_ns : list N;            (* names bound in ip.user_ns by auto-imports (IPython's side; used by SafeCall.v) *)
   log_pre : bool;              (* pyflyby._log handler: _pre_log_function is set (inside a HookCtx, or left set by one whose post() raised) *)
   log_dirty : bool;            (* pyflyby._log handler: _logged_anything_during_context *)
+  has_shell : bool;            (* app.shell is not None                  (IPython's side) *)
+  pending : bool;              (* self._pending_initializers *)
+  registered : list N;         (* names registered with pyflyby.add_import() in self.db, the session-local database *)
   next : N                     (* allocator of object identities *)
 }.
 
 Definition set_st (x : estate) (s : state) : state :=
-  mkState x (errored s) (disablers s) (slot s) (ast_l s) (cleanup_l s) (line_l s) (ast_tr s) (attempted s) (user_ns s) (log_pre s) (log_dirty s) (next s).
+  mkState x (errored s) (disablers s) (slot s) (ast_l s) (cleanup_l s) (line_l s) (ast_tr s) (attempted s) (user_ns s) (log_pre s) (log_dirty s) (has_shell s) (pending s) (registered s) (next s).
 Definition set_errored (b : bool) (s : state) : state :=
-  mkState (st s) b (disablers s) (slot s) (ast_l s) (cleanup_l s) (line_l s) (ast_tr s) (attempted s) (user_ns s) (log_pre s) (log_dirty s) (next s).
+  mkState (st s) b (disablers s) (slot s) (ast_l s) (cleanup_l s) (line_l s) (ast_tr s) (attempted s) (user_ns s) (log_pre s) (log_dirty s) (has_shell s) (pending s) (registered s) (next s).
 Definition set_disablers (d : list disabler) (s : state) : state :=
-  mkState (st s) (errored s) d (slot s) (ast_l s) (cleanup_l s) (line_l s) (ast_tr s) (attempted s) (user_ns s) (log_pre s) (log_dirty s) (next s).
+  mkState (st s) (errored s) d (slot s) (ast_l s) (cleanup_l s) (line_l s) (ast_tr s) (attempted s) (user_ns s) (log_pre s) (log_dirty s) (has_shell s) (pending s) (registered s) (next s).
 Definition set_slot (j : jp) (v : val) (s : state) : state :=
   mkState (st s) (errored s) (disablers s) (fun k => if jp_eqb k j then v else slot s k)
-          (ast_l s) (cleanup_l s) (line_l s) (ast_tr s) (attempted s) (user_ns s) (log_pre s) (log_dirty s) (next s).
+          (ast_l s) (cleanup_l s) (line_l s) (ast_tr s) (attempted s) (user_ns s) (log_pre s) (log_dirty s) (has_shell s) (pending s) (registered s) (next s).
 Definition set_ast_tr (o : option N) (s : state) : state :=
-  mkState (st s) (errored s) (disablers s) (slot s) (ast_l s) (cleanup_l s) (line_l s) o (attempted s) (user_ns s) (log_pre s) (log_dirty s) (next s).
+  mkState (st s) (errored s) (disablers s) (slot s) (ast_l s) (cleanup_l s) (line_l s) o (attempted s) (user_ns s) (log_pre s) (log_dirty s) (has_shell s) (pending s) (registered s) (next s).
 Definition set_attempted (a : list (N * bool)) (s : state) : state :=
-  mkState (st s) (errored s) (disablers s) (slot s) (ast_l s) (cleanup_l s) (line_l s) (ast_tr s) a (user_ns s) (log_pre s) (log_dirty s) (next s).
+  mkState (st s) (errored s) (disablers s) (slot s) (ast_l s) (cleanup_l s) (line_l s) (ast_tr s) a (user_ns s) (log_pre s) (log_dirty s) (has_shell s) (pending s) (registered s) (next s).
 Definition set_user_ns (u : list N) (s : state) : state :=
-  mkState (st s) (errored s) (disablers s) (slot s) (ast_l s) (cleanup_l s) (line_l s) (ast_tr s) (attempted s) u (log_pre s) (log_dirty s) (next s).
+  mkState (st s) (errored s) (disablers s) (slot s) (ast_l s) (cleanup_l s) (line_l s) (ast_tr s) (attempted s) u (log_pre s) (log_dirty s) (has_shell s) (pending s) (registered s) (next s).
 Definition set_log (pre dirty : bool) (s : state) : state :=
-  mkState (st s) (errored s) (disablers s) (slot s) (ast_l s) (cleanup_l s) (line_l s) (ast_tr s) (attempted s) (user_ns s) pre dirty (next s).
+  mkState (st s) (errored s) (disablers s) (slot s) (ast_l s) (cleanup_l s) (line_l s) (ast_tr s) (attempted s) (user_ns s) pre dirty (has_shell s) (pending s) (registered s) (next s).
 (*  _PyflybyHandler.emit: if self._pre_log_function is not None:
                               if not self._logged_anything_during_context: self._pre_log_function(); self._logged_anything_during_context = True *)
 Definition log_emit (s : state) : state := if log_pre s then set_log true true s else s.
+Definition set_has_shell (b : bool) (s : state) : state :=
+  mkState (st s) (errored s) (disablers s) (slot s) (ast_l s) (cleanup_l s) (line_l s) (ast_tr s) (attempted s) (user_ns s) (log_pre s) (log_dirty s) b (pending s) (registered s) (next s).
+Definition set_pending (b : bool) (s : state) : state :=
+  mkState (st s) (errored s) (disablers s) (slot s) (ast_l s) (cleanup_l s) (line_l s) (ast_tr s) (attempted s) (user_ns s) (log_pre s) (log_dirty s) (has_shell s) b (registered s) (next s).
+Definition set_registered (r : list N) (s : state) : state :=
+  mkState (st s) (errored s) (disablers s) (slot s) (ast_l s) (cleanup_l s) (line_l s) (ast_tr s) (attempted s) (user_ns s) (log_pre s) (log_dirty s) (has_shell s) (pending s) r (next s).
 Definition bump_next (s : state) : state :=
-  mkState (st s) (errored s) (disablers s) (slot s) (ast_l s) (cleanup_l s) (line_l s) (ast_tr s) (attempted s) (user_ns s) (log_pre s) (log_dirty s) (next s + 1)%N.
+  mkState (st s) (errored s) (disablers s) (slot s) (ast_l s) (cleanup_l s) (line_l s) (ast_tr s) (attempted s) (user_ns s) (log_pre s) (log_dirty s) (has_shell s) (pending s) (registered s) (next s + 1)%N.
 
 Definition get_list (l : hooklist) (s : state) : list N :=
   match l with LAst => ast_l s | LCleanup => cleanup_l s | LLineTransforms => line_l s end.
 Definition set_list (l : hooklist) (x : list N) (s : state) : state :=
   match l with
-  | LAst => mkState (st s) (errored s) (disablers s) (slot s) x (cleanup_l s) (line_l s) (ast_tr s) (attempted s) (user_ns s) (log_pre s) (log_dirty s) (next s)
-  | LCleanup => mkState (st s) (errored s) (disablers s) (slot s) (ast_l s) x (line_l s) (ast_tr s) (attempted s) (user_ns s) (log_pre s) (log_dirty s) (next s)
-  | LLineTransforms => mkState (st s) (errored s) (disablers s) (slot s) (ast_l s) (cleanup_l s) x (ast_tr s) (attempted s) (user_ns s) (log_pre s) (log_dirty s) (next s)
+  | LAst => mkState (st s) (errored s) (disablers s) (slot s) x (cleanup_l s) (line_l s) (ast_tr s) (attempted s) (user_ns s) (log_pre s) (log_dirty s) (has_shell s) (pending s) (registered s) (next s)
+  | LCleanup => mkState (st s) (errored s) (disablers s) (slot s) (ast_l s) x (line_l s) (ast_tr s) (attempted s) (user_ns s) (log_pre s) (log_dirty s) (has_shell s) (pending s) (registered s) (next s)
+  | LLineTransforms => mkState (st s) (errored s) (disablers s) (slot s) (ast_l s) (cleanup_l s) x (ast_tr s) (attempted s) (user_ns s) (log_pre s) (log_dirty s) (has_shell s) (pending s) (registered s) (next s)
   end.
 Definition push_disabler (d : disabler) (s : state) : state := set_disablers (d :: disablers s) s.
 
@@ -269,7 +280,8 @@ Record env := mkEnv {
   e_rwd : bool;                (* hasattr(execmgr, "_run_with_debugger") *)
   e_level : N;                 (* pyflyby's log level: 10 DEBUG, 20 INFO, 30 WARNING, 40 ERROR *)
   f6_fixed : bool;             (* code variant: the IPython>=7 reset hook registers a disabler (fixes/F06) *)
-  f14_fixed : bool             (* code variant: getattr(completer, "python_matches", None) (fixes/F14) *)
+  f14_fixed : bool;            (* code variant: getattr(completer, "python_matches", None) (fixes/F14) *)
+  e_init_subcmd : bool         (* hasattr(app, "initialize_subcommand") *)
 }.
 
 (*  logger.debug_enabled  *)
@@ -412,19 +424,49 @@ Fixpoint run_hooks (hs : list (state -> res bool)) (ok : bool) (s : state) : res
 
 Definition enable_shell_hooks (s : state) : res bool :=
   if negb (estate_eqb (st s) ENABLING) then Ret s false
+  else if negb (has_shell s) then Ret s false     (* ip is None: "no shell yet" *)
   else run_hooks shell_hooks true s.
+
+(*  _enable_initializer_hooks(app):
+        ok = True; pending = False
+        ip = getattr(app, "shell", None)
+        if ip is None:
+            if hasattr(app, "init_shell"):
+                @self._advise(app.init_shell)
+                def init_shell_enable_auto_importer(): __original__(); ...; self._continue_enable()
+            ...
+            if hasattr(app, "initialize_subcommand"): @self._advise(app.initialize_subcommand) ...
+            pending = True
+        (post_config_initialization: IPython 0.10 only)
+        self._pending_initializers = pending
+        return ok                                                                           *)
+Definition enable_initializer_hooks (s : state) : state :=
+  if has_shell s then set_pending false s
+  else
+    let s1 := advise_once JInitShell s in
+    let s2 := if e_init_subcmd E then advise_once JInitSubcommand s1 else s1 in
+    set_pending true s2.
 
 (*  _enable_internal:
       ok = True
-      ok &= self._enable_initializer_hooks(app)   [initialised terminal app: shell present, no
-      ok &= self._enable_kernel_manager_hook(app)  post_config_initialization, no kernel manager: both True,
-                                                   nothing advised, _pending_initializers = False]
+      ok &= self._enable_initializer_hooks(app)   [returns True for a BaseIPythonApplication]
+      ok &= self._enable_kernel_manager_hook(app) [terminal app: no kernel manager: True, nothing advised]
       ok &= self._enable_shell_hooks(app)
       if ok: self._state = ENABLED
-      elif self._pending_initializers: pass
+      elif self._pending_initializers: pass       [stays ENABLING until init_shell() has run]
       else: self._state = ENABLED                                                           *)
 Definition enable_internal (s : state) : res unit :=
-  bind (enable_shell_hooks s) (fun s' ok => Ret (set_st ENABLED s') tt).
+  bind (enable_shell_hooks (enable_initializer_hooks s)) (fun s' ok =>
+    if ok then Ret (set_st ENABLED s') tt
+    else if pending s' then Ret s' tt
+    else Ret (set_st ENABLED s') tt).
+
+(*  def _continue_enable(self):
+        if self._state != ENABLING: return
+        self._safe_call(self._enable_internal)                                              *)
+Definition continue_enable (s : state) : res unit :=
+  if negb (estate_eqb (st s) ENABLING) then Ret s tt
+  else bind (safe_call (e_debug E) RIfDebug enable_internal None s) (fun s' _ => Ret s' tt).
 
 (*  def enable(self, even_if_previously_errored=False):
         if self._state is DISABLED: pass
@@ -453,7 +495,8 @@ Definition enable (force : bool) (s : state) : res unit :=
 Record shell := mkShell {
   ai : state;
   ext_loaded : bool;          (* "pyflyby" in ip.extension_manager.loaded   (IPython's bookkeeping) *)
-  escaped : option exc        (* exception that left the last operation, if any *)
+  escaped : option exc;       (* exception that left the last operation, if any *)
+  ext_attr : bool             (* hasattr(ip, "_auto_importer"): load_ipython_extension has been called *)
 }.
 
 Inductive op :=
@@ -464,18 +507,31 @@ Inductive op :=
 | UnloadExt     (* ip.extension_manager.unload_extension("pyflyby")    (%unload_ext) *)
 | ReloadExt     (* ip.extension_manager.reload_extension("pyflyby")    (%reload_ext) *)
 | LoadFn        (* pyflyby.load_ipython_extension(ip) called directly *)
-| UnloadFn.     (* pyflyby.unload_ipython_extension(ip) called directly *)
+| UnloadFn      (* pyflyby.unload_ipython_extension(ip) called directly *)
+| Initialize    (* app.initialize(argv): [IPython] creates the shell through app.init_shell() *)
+| AddImport (id : N).   (* pyflyby.add_import(name, code): registers a name in the session-local database *)
 
 (*  load_ipython_extension: auto_importer.enable(even_if_previously_errored=True); cache clears; debug tools
     unload_ipython_extension: auto_importer.disable(); remove_comms()                       *)
 Definition load_fn (s : state) : res unit := enable true s.
 Definition unload_fn (s : state) : res unit := Ret (disable s) tt.
 
-Definition finish (loaded : bool) (m : res unit) (loaded_if_ok : bool) : shell :=
+Definition finish (sh : shell) (m : res unit) (loaded_if_ok attr : bool) : shell :=
   match m with
-  | Ret s _ => mkShell s loaded_if_ok None
-  | Raise s e => mkShell s loaded (Some e)
+  | Ret s _ => mkShell s loaded_if_ok None attr
+  | Raise s e => mkShell s (ext_loaded sh) (Some e) attr
   end.
+
+(*  [IPython] app.initialize() calls self.init_shell(); advised by pyflyby:
+        def init_shell_enable_auto_importer():
+            __original__(); ...; ip = app.shell; if ip is None: return
+            self._continue_enable()                                                         *)
+Definition initialize (s : state) : res unit :=
+  if has_shell s then Ret s tt
+  else if is_advice (slot s JInitShell) then continue_enable (set_has_shell true s)
+  else Ret (set_has_shell true s) tt.
+
+Definition cls_ValueError : N := 10%N.
 
 (*  ExtensionManager._load_extension: if module_str in self.loaded: return "already loaded"
                                       ... mod.load_ipython_extension(self.shell); self.loaded.add(module_str)
@@ -483,21 +539,30 @@ Definition finish (loaded : bool) (m : res unit) (loaded_if_ok : bool) : shell :
                       mod.unload_ipython_extension(self.shell); self.loaded.discard(module_str)
     reload_extension: if module_str in self.loaded: self.unload_extension(module_str); reload(mod);
                           mod.load_ipython_extension(self.shell); self.loaded.add(module_str)
-                      else: self.load_extension(module_str)                                 *)
+                      else: self.load_extension(module_str)
+    load_ipython_extension(arg): auto_importer = AutoImporter(arg); arg._auto_importer = auto_importer; ...
+    _dynimp.add_import: if not hasattr(ip, "_auto_importer"): raise ValueError(...)
+                        ip._auto_importer.db.known_imports = ... | from <mangled> import <names>
+                        (AutoImporter.db is created once per application, in _from_app)     *)
 Definition step (sh : shell) (o : op) : shell :=
   let s := ai sh in
   let ld := ext_loaded sh in
+  let at_ := ext_attr sh in
   match o with
-  | Enable => finish ld (enable false s) ld
-  | EnableAgain => finish ld (bind (enable false s) (fun s' _ => enable false s')) ld
-  | Disable => mkShell (disable s) ld None
-  | LoadExt => if ld then mkShell s ld None else finish ld (load_fn s) true
-  | UnloadExt => if ld then finish ld (unload_fn s) false else mkShell s ld None
+  | Enable => finish sh (enable false s) ld at_
+  | EnableAgain => finish sh (bind (enable false s) (fun s' _ => enable false s')) ld at_
+  | Disable => mkShell (disable s) ld None at_
+  | LoadExt => if ld then mkShell s ld None at_ else finish sh (load_fn s) true true
+  | UnloadExt => if ld then finish sh (unload_fn s) false at_ else mkShell s ld None at_
   | ReloadExt =>
-      if ld then finish false (bind (unload_fn s) (fun s' _ => load_fn s')) true
-      else finish ld (load_fn s) true
-  | LoadFn => finish ld (load_fn s) ld
-  | UnloadFn => finish ld (unload_fn s) ld
+      if ld then finish (mkShell s false None at_) (bind (unload_fn s) (fun s' _ => load_fn s')) true true
+      else finish sh (load_fn s) true true
+  | LoadFn => finish sh (load_fn s) ld true
+  | UnloadFn => finish sh (unload_fn s) ld at_
+  | Initialize => finish sh (initialize s) ld at_
+  | AddImport id =>
+      if at_ then mkShell (set_registered (id :: registered s) s) ld None at_
+      else mkShell s ld (Some (EExc cls_ValueError)) at_
   end.
 
 Definition run (ops : list op) (sh : shell) : shell := fold_left step ops sh.
@@ -512,6 +577,6 @@ Fixpoint trace (ops : list op) (sh : shell) : list shell :=
 End WithEnv.
 
 (* the shell before pyflyby touched it *)
-Definition init_state (slots : jp -> val) (ast cleanup line : list N) (nxt : N) : state :=
-  mkState DISABLED false [] slots ast cleanup line None [] [] false false nxt.
-Definition init_shell (s : state) : shell := mkShell s false None.
+Definition init_state (slots : jp -> val) (ast cleanup line : list N) (shell : bool) (nxt : N) : state :=
+  mkState DISABLED false [] slots ast cleanup line None [] [] false false shell false [] nxt.
+Definition init_shell (s : state) : shell := mkShell s false None false.
